@@ -85,11 +85,14 @@ def verdict (progs res : List (List String)) (a : Acc) : String :=
 def judge (case out : String) : String :=
   if out.startsWith "CRASH" || out.startsWith "panic" then "bad crash " ++ out
   else match case.splitOn "|", out.splitOn "|" with
-    | [cfg, progs, _], [tr, rs, _] =>
-      let fixed := (words cfg).contains "fixed"
+    | [_, progs, _], [tr, rs, _] =>
       let progs := (progs.splitOn ";").map words
       let res := ((rs.trimAscii.toString.drop 1).toString.splitOn ";").map fun r => (r.trimAscii.toString.splitOn ",")
       let tr := (words tr).drop 1
+      -- one `Store:responseClosed` per Ask: the code without the late store; two: the code with it
+      let nasks := (progs.map fun p => (p.filter fun w => (reqOf w).isSome).length).foldl (· + ·) 0
+      let nstores := (tr.filter fun e => e.endsWith ":Store:responseClosed").length
+      let fixed := nstores == nasks
       if tr.contains "cap" then "ok unfinished"
       else verdict progs res (feedAll fixed progs res { ts := progs.map fun _ => {} } 0 tr)
     | _, _ => "bad unparsable " ++ out
